@@ -31,7 +31,36 @@ fn random_literal(rng: &mut Rng) -> Expr {
 
 /// apply one edit; returns a description or None when the edit found no site
 fn perturb(p: &mut Program, rng: &mut Rng, typed_globals: &[BId]) -> Option<&'static str> {
-    let kind = rng.below(10);
+    let kind = rng.below(12);
+    if kind == 11 {
+        // the operator of an assignment becomes another one (`=` `+=` `-=` `*=` `/=`): a compound assignment
+        // applies its operator to target and value, whatever else the types are used for afterwards
+        let mut total = 0usize;
+        crate::visit::blocks_mut(p, &mut |b: &mut Block, _c: &crate::visit::BlockCtx| {
+            total += b.stmts.iter().filter(|s| matches!(s, Stmt::Assign { .. })).count();
+            false
+        });
+        if total == 0 {
+            return None;
+        }
+        let target = rng.below(total);
+        let new = [AssignOp::Set, AssignOp::Add, AssignOp::Sub, AssignOp::Mul, AssignOp::Div][rng.below(5)];
+        let mut seen = 0usize;
+        let mut changed = false;
+        crate::visit::blocks_mut(p, &mut |b: &mut Block, _c: &crate::visit::BlockCtx| {
+            for st in b.stmts.iter_mut() {
+                if let Stmt::Assign { op, .. } = st {
+                    if seen == target && *op != new {
+                        *op = new;
+                        changed = true;
+                    }
+                    seen += 1;
+                }
+            }
+            false
+        });
+        return if changed { Some("assignment-operator-changed") } else { None };
+    }
     if kind == 0 {
         // move a use out of its scope / before its declaration
         let plants = scope_plants(p);
@@ -70,6 +99,7 @@ fn perturb(p: &mut Program, rng: &mut Rng, typed_globals: &[BId]) -> Option<&'st
         6 => "else-arm-dropped",
         7 => "variant-payload-changed",
         8 => "operand-swapped-with-literal",
+        10 => "binary-operator-changed",
         _ => "call-of-non-function",
     };
     let mut total = 0usize;
@@ -80,7 +110,7 @@ fn perturb(p: &mut Program, rng: &mut Rng, typed_globals: &[BId]) -> Option<&'st
             "field-renamed" => matches!(e, Expr::Field(..)),
             "else-arm-dropped" => matches!(e, Expr::If { els: Some(_), .. } | Expr::Case { els: Some(_), .. }),
             "variant-payload-changed" => matches!(e, Expr::Variant { .. }),
-            "operand-swapped-with-literal" => matches!(e, Expr::Bin(..)),
+            "operand-swapped-with-literal" | "binary-operator-changed" => matches!(e, Expr::Bin(..)),
             _ => matches!(e, Expr::Call { .. }),
         }
     };
@@ -145,6 +175,12 @@ fn perturb(p: &mut Program, rng: &mut Rng, typed_globals: &[BId]) -> Option<&'st
                             0 => None,
                             _ => Some(Box::new(lit.clone())),
                         };
+                    }
+                }
+                "binary-operator-changed" => {
+                    if let Expr::Bin(op, ..) = e {
+                        let all = [BinOp::Add, BinOp::Sub, BinOp::Mul, BinOp::Div, BinOp::Eq, BinOp::Ne, BinOp::Lt, BinOp::Le, BinOp::Gt, BinOp::Ge, BinOp::And, BinOp::Or];
+                        *op = all[(r % 12) as usize];
                     }
                 }
                 "operand-swapped-with-literal" => {
@@ -263,6 +299,26 @@ const TEMPLATES: &[(&str, Option<&str>, &str)] = &[
     ("deferred tuple comparison applied to a str element", None, "lt :: fn p ->\n    (p, 1) < (6, 1)\nend\n\nstart :: fn do\n    s := \"x\"\n    print(lt(s))\nend\n"),
     ("deferred tuple subtraction applied to a str element", None, "sub :: fn p ->\n    (p, 1) - (6, 1)\nend\n\nstart :: fn do\n    s := \"x\"\n    print(sub(s))\nend\n"),
     ("tuple addition with string elements (sound: concatenation)", None, "start :: fn do\n    t := (1, \"a\") + (2, \"b\")\n    print(t)\n    u := t\n    u += (1, \"c\")\n    print(u)\nend\n"),
+    // the value of a compound assignment is its own target (nothing to unify)
+    ("bool *= itself", None, "start :: fn do\n    m := false\n    m *= m\n    print(1)\nend\n"),
+    ("annotated bool += itself in a nested block", None, "start :: fn do\n    i := 0\n    if i < 100 do\n        m: bool = false\n        m += m\n    end\n    print(i)\nend\n"),
+    ("str -= itself", None, "start :: fn do\n    s := \"a\"\n    s -= s\n    print(s)\nend\n"),
+    ("str field *= itself", None, "B :: blob {\n    s: str,\n}\n\nstart :: fn do\n    b := B { s: \"a\" }\n    b.s *= b.s\n    print(1)\nend\n"),
+    // assignment through a constant index (only tuples have one, and they are immutable)
+    ("assignment to a tuple element", None, "start :: fn do\n    t := (1, 2)\n    t[0] = 5\n    print(t)\nend\n"),
+    ("compound assignment to a tuple element held in a blob", None, "B :: blob {\n    pair: (int, int),\n}\n\nstart :: fn do\n    b := B { pair: (1, 2) }\n    b.pair[1] += 7\n    print(b.pair)\nend\n"),
+    ("assignment to an element of a nested tuple", None, "start :: fn do\n    tt := ((1, 2), 3)\n    tt[0][1] = 5\n    print(tt)\nend\n"),
+    // the name of a type where a value is expected
+    ("field read on the name of a blob type", None, "B :: blob {\n    n: int,\n}\n\nstart :: fn do\n    print(B.n)\nend\n"),
+    ("field assignment on the name of a blob type", None, "B :: blob {\n    n: int,\n}\n\nstart :: fn do\n    B.n = 5\n    print(1)\nend\n"),
+    ("name of a blob type stored in a variable and read through it", None, "B :: blob {\n    n: int,\n}\n\nstart :: fn do\n    y := B\n    print(y.n + 1)\nend\n"),
+    ("name of a blob type passed to a function expecting an instance", None, "B :: blob {\n    n: int,\n}\n\nget :: fn b: B -> int do\n    b.n\nend\n\nstart :: fn do\n    print(get(B) + 1)\nend\n"),
+    // compound assignments whose target and value have the same type, for which the operator is not defined; the
+    // result only flows to places whose type is already known (declared result, plain `=`, a condition)
+    ("str *= str in a loop, result only returned through a declared str", None, "rep :: fn s: str, n: int -> str do\n    out := s\n    i := 1\n    loop i < n do\n        out *= s\n        i += 1\n    end\n    out\nend\n\nstart :: fn do\n    print(rep(\"ab\", 3))\nend\n"),
+    ("str -= str, result only stored by a plain assignment", None, "start :: fn do\n    a := \"ab\"\n    b := \"b\"\n    a -= b\n    c := \"\"\n    c = a\n    print(\"done\")\nend\n"),
+    ("bool += bool, result only used as a condition", None, "either :: fn a: bool, b: bool -> bool do\n    seen := a\n    seen += b\n    seen\nend\n\nstart :: fn do\n    if either(false, true) do\n        print(\"yes\")\n    end\nend\n"),
+    ("bool *= bool on a blob field", None, "B :: blob {\n    on: bool,\n}\n\nstart :: fn do\n    b := B { on: true }\n    b.on *= false\n    if b.on do\n        print(1)\n    end\nend\n"),
     (
         "fn field declared to return a later-declared blob given a fn returning a str",
         None,
